@@ -3,7 +3,7 @@
    regenerated from /repo on every run (constant + source text of the helpers, tied in
    Proofs_shape.v).  Names are label lists, root first; [canon] folds ASCII case. *)
 From Sdns Require Import Common.Base Gen.C07 C07.Model C07.Proofs_names C07.Proofs_exchange
-  C07.Proofs_glue C07.Proofs_referral C07.Proofs_contain C07.Proofs_shape.
+  C07.Proofs_glue C07.Proofs_referral C07.Proofs_contain C07.Proofs_chase C07.Proofs_gluehist C07.Proofs_shape.
 Open Scope N_scope.
 
 (* A reply is accepted only when it parses, carries the outstanding query's ID and - when the
@@ -142,3 +142,69 @@ Theorem containment_glue_at_level :
   ~ In (canon (rr_owner r)) (gr_found4 g ++ gr_found6 g ++ map fst (gr_addrs4 g) ++ map fst (gr_addrs6 g)).
 Proof. exact contained_glue. Qed.
 Print Assumptions containment_glue_at_level.
+
+(* containment with the one remaining premise about names discharged: resolution starts at the
+   servers of an ancestor of the query name (searchCache: its last k labels) and every referral step
+   passed validReferral - which processDelegation enforces *)
+Theorem containment_end_to_end_thm :
+  forall k steps q m r ipv6 local,
+  let start := firstn k (q_name q) in
+  let auth := fst (descent start steps) in
+  let level := snd (descent start steps) in
+  valid_steps (q_name q) (descent_start start) steps ->
+  is_sub auth (rr_owner r) = false ->
+  ~ In r (relayed_answer auth q m) /\
+  ~ In r (cached_for q (relayed_answer auth q m)) /\
+  (forall o g, referral_glue ipv6 local level auth q m = Some (o, g) ->
+     ~ In (canon (rr_owner r)) (gr_found4 g ++ gr_found6 g ++ map fst (gr_addrs4 g) ++ map fst (gr_addrs6 g))) /\
+  (forall i, dispose auth q m = DReferral i ->
+     exists owner, di_owner i = Some owner /\ is_sub auth owner = true /\ name_eqb owner auth = false /\
+       is_sub owner (q_name q) = true /\ (In r (u_ns m) -> ~ is_ns r)).
+Proof. exact containment_end_to_end. Qed.
+Print Assumptions containment_end_to_end_thm.
+
+(* ALIAS CHASE (Cache.additionalAnswer in full, any namespace [o] the sub-queries are answered from,
+   chains of any length, loops, NXDOMAIN / empty / failing targets): the chase only appends to the
+   answer, and only records a sub-resolution returned *)
+Theorem alias_chase_only_adds_resolved_records :
+  forall q rcode answer o rc' ans',
+  additional_answer q rcode answer o = ChMsg rc' ans' ->
+  exists extra, ans' = answer ++ extra /\ incl extra (oracle_records o).
+Proof. exact additional_answer_sound. Qed.
+Print Assumptions alias_chase_only_adds_resolved_records.
+
+(* the client's reply to a positive final-hop answer: in-zone Answer records of the upstream message,
+   then re-resolved records; a record the server sent for a name outside its zone is in the reply
+   only if re-resolution - through that name's own delegation path - returned the very same record *)
+Theorem client_reply_contained_thm :
+  forall auth q m o rc ans r,
+  client_reply auth q m o = Some (ChMsg rc ans) ->
+  is_sub auth (rr_owner r) = false -> In r ans -> In r (oracle_records o).
+Proof. exact client_reply_contained. Qed.
+Print Assumptions client_reply_contained_thm.
+
+Theorem client_reply_sources_thm :
+  forall auth q m o rc ans,
+  client_reply auth q m o = Some (ChMsg rc ans) ->
+  forall r, In r ans -> (In r (u_answer m) /\ is_sub auth (rr_owner r) = true) \/ In r (oracle_records o).
+Proof. exact client_reply_sources. Qed.
+Print Assumptions client_reply_sources_thm.
+
+(* THE NS-ADDRESS CACHE ACROSS HISTORIES.  For every sequence of referrals (any level, question, NS
+   host set, additional section, and any outcome of the address lookups for glue-less hosts): each
+   entry of the cache is filed under an NS host of one of those referrals, either as glue lying
+   inside the zone cut out of the question at that referral's level or from an address lookup for
+   that very host; every address on file is usable (not loopback, not a local interface). *)
+Theorem glue_cache_history_sound :
+  forall local evs k v,
+  In (k, v) (glue_history local evs) ->
+  Forall (addr_ok local) v /\ exists e, In e evs /\ filed_by e k.
+Proof. exact glue_history_sound. Qed.
+Print Assumptions glue_cache_history_sound.
+
+Theorem glue_cache_lookup_sound :
+  forall local evs host v,
+  glue_lookup host (glue_history local evs) = Some v ->
+  Forall (addr_ok local) v /\ exists e k, In e evs /\ filed_by e k /\ name_eqb host k = true.
+Proof. exact glue_history_lookup. Qed.
+Print Assumptions glue_cache_lookup_sound.
